@@ -7,6 +7,8 @@ require (
 	github.com/0chain/common v1.13.1-0.20240726100134-cbf5bf9beaac
 	github.com/anishathalye/porcupine v1.3.0
 	github.com/herumi/bls-go-binary v1.33.0
+	go.uber.org/zap v1.24.0
+	golang.org/x/crypto v0.21.0
 )
 
 require (
@@ -105,8 +107,6 @@ require (
 	go.mongodb.org/mongo-driver v1.11.3 // indirect
 	go.uber.org/atomic v1.11.0 // indirect
 	go.uber.org/multierr v1.9.0 // indirect
-	go.uber.org/zap v1.24.0 // indirect
-	golang.org/x/crypto v0.21.0 // indirect
 	golang.org/x/exp v0.0.0-20230515195305-f3d0a9c9a5cc // indirect
 	golang.org/x/net v0.22.0 // indirect
 	golang.org/x/sys v0.18.0 // indirect
